@@ -19,9 +19,27 @@ import (
 // sequential part: transaction bodies x endings x seeds, observed between every two steps
 // ---------------------------------------------------------------------------------------------
 
-var pool = &hist.Pool{
+var poolPrefix = &hist.Pool{
 	Methods:  []string{"GET", "FOO"},
 	Patterns: []string{"/a", "/a/", "/a/b", "/a/c", "/a/{x}"},
+}
+
+// poolSiblings: many siblings under one node (children slices with spare capacity, re-sorting).
+var poolSiblings = &hist.Pool{
+	Methods:  []string{"GET", "FOO"},
+	Patterns: []string{"/b", "/c", "/d", "/a", "/*{w}"},
+}
+
+var pool = poolPrefix
+
+func usePool(name string) {
+	if name == "siblings" {
+		pool = poolSiblings
+		probes = []probe{{"GET", "/a"}, {"GET", "/b"}, {"GET", "/c"}, {"GET", "/d"}, {"GET", "/z/y"}, {"FOO", "/a"}}
+		return
+	}
+	pool = poolPrefix
+	probes = []probe{{"GET", "/a"}, {"GET", "/a/"}, {"GET", "/a/b"}, {"GET", "/a/c"}, {"GET", "/a/z"}, {"FOO", "/a"}}
 }
 
 // body operation kinds beyond hist's: take a Snapshot / an Iter of the transaction
@@ -74,6 +92,7 @@ var endNames = [...]string{"Commit", "Abort", "Commit;Abort", "Abort;Commit", "U
 
 // Case is a replayable sequential case.
 type Case struct {
+	Pool string     `json:"pool,omitempty"`
 	Seed []hist.Key `json:"seed"`
 	Body []bop      `json:"body"`
 	End  int        `json:"end"`
@@ -179,6 +198,7 @@ type injected struct{}
 
 // evalCase runs one (seed, body, ending) and returns (class, msg).
 func evalCase(cs Case, expCache map[string]string) (class, msg string) {
+	usePool(cs.Pool)
 	pre := seedModel(cs.Seed)
 	f := buildSeed(cs.Seed)
 	exp := func(m hist.Model, mode int) string {
@@ -488,14 +508,15 @@ func seeds() [][]hist.Key {
 	return out
 }
 
-func runSeq(c *mc.Ctx, r *mc.Result) {
+func runSeq(c *mc.Ctx, r *mc.Result, poolName string) {
+	usePool(poolName)
 	alpha := bodyAlphabet()
 	maxLen := 3
 	if c.Quick() {
 		maxLen = 2
 	}
 	sd := seeds()
-	r.Bounds["sequential"] = fmt.Sprintf("%d seed states (subsets <=3 of %v on GET, +FOO /a) x all transaction bodies of <=%d operations over %d operations (Handle/Update/Delete on 5 patterns, custom method, Truncate(GET), Truncate(), Snapshot, Iter) x %d endings", len(sd), pool.Patterns, maxLen, len(alpha), nEnds)
+	r.Bounds["sequential."+poolName] = fmt.Sprintf("%d seed states (subsets <=3 of %v on GET, +FOO /a) x all transaction bodies of <=%d operations over %d operations (Handle/Update/Delete on 5 patterns, custom method, Truncate(GET), Truncate(), Snapshot, Iter) x %d endings", len(sd), pool.Patterns, maxLen, len(alpha), nEnds)
 	cache := map[string]string{}
 	idx := 0
 	var body []bop
@@ -517,7 +538,7 @@ func runSeq(c *mc.Ctx, r *mc.Result) {
 					return
 				}
 				for end := 0; end < nEnds; end++ {
-					cs := Case{Seed: seed, Body: append([]bop{}, body...), End: end}
+					cs := Case{Pool: poolName, Seed: seed, Body: append([]bop{}, body...), End: end}
 					class, msg := evalCase(cs, cache)
 					r.Evaluations++
 					r.Transitions += int64(len(body))
@@ -626,7 +647,8 @@ func init() {
 			{Name: "sequential", Run: func(c *mc.Ctx, r *mc.Result) {
 				un := mc.DeterministicPools()
 				defer un()
-				runSeq(c, r)
+				runSeq(c, r, "prefixes")
+				runSeq(c, r, "siblings")
 			}, Replay: func(c *mc.Ctx, raw json.RawMessage) string {
 				un := mc.DeterministicPools()
 				defer un()
